@@ -25,9 +25,9 @@ RULE = ('Generated experiment frames (1-8 geos per group, 12-70 dates, unique / 
 ASSUMPTIONS = ['the date is a column of the frame (the method selects it by name)',
                'frames have >= 12 dates (the correlation test needs >= 4 observations)']
 EXHAUSTIVE = {'quick': False, 'thorough': False}
-MINIMA = {'quick': {'refits': 80, 'returned_frame_edits': 150, 'fits_ok': 300, 'removed_geo_cases': 40, 'removed_date_cases': 40, 'permutation_pairs': 300,
+MINIMA = {'quick': {'categorical_column_cases': 30, 'longer_third_arm_with_removed_date': 10, 'refits': 80, 'returned_frame_edits': 150, 'fits_ok': 300, 'removed_geo_cases': 40, 'removed_date_cases': 40, 'permutation_pairs': 300,
                     'nonunique_index_cases': 80, 'distinct_nontrivial': 100},
-          'thorough': {'refits': 1200, 'returned_frame_edits': 2000, 'fits_ok': 5000, 'removed_geo_cases': 600, 'removed_date_cases': 600, 'permutation_pairs': 5000,
+          'thorough': {'categorical_column_cases': 400, 'longer_third_arm_with_removed_date': 150, 'refits': 1200, 'returned_frame_edits': 2000, 'fits_ok': 5000, 'removed_geo_cases': 600, 'removed_date_cases': 600, 'permutation_pairs': 5000,
                        'nonunique_index_cases': 1200, 'distinct_nontrivial': 1500}}
 N = {'quick': 480, 'thorough': 7000}
 CASE_TIMEOUT = {'quick': 180, 'thorough': 600}
@@ -104,8 +104,24 @@ def make_frame(r, g):
         rows.append((dates[k], gid, grp, periods[k], float(series[k])))
       gid += r.choice([1, 1, 3])
   planted['outlier_dates'] = [str(dates[k]) for k in spike_dates]
+  longer_arm = False
+  if len(groups) == 3 and r.random() < 0.6:
+    # the geos outside the experiment report one or two days longer than the two experiment groups
+    longer_arm = True
+    last = dates[-1]
+    for gid_, grp_ in sorted({(row[1], row[2]) for row in rows if row[2] == groups[2][0]}):
+      for j in range(1, r.randrange(2, 4)):
+        rows.append((last + pd.Timedelta(days=j), gid_, grp_, periods[-1], float(g.normal(100, 3))))
   r.shuffle(rows)
   frame = pd.DataFrame(rows, columns=[names['date'], names['geo'], names['group'], names['period'], names['response']])
+  categorical = None
+  u_cat = r.random()
+  if u_cat < 0.12:
+    frame[names['date']] = frame[names['date']].astype('category')
+    categorical = 'date'
+  elif u_cat < 0.2:
+    frame[names['period']] = frame[names['period']].astype('category')
+    categorical = 'period'
   if r.random() < 0.3:
     frame['other'] = 1.5
   u = r.random()
@@ -129,7 +145,7 @@ def make_frame(r, g):
               'key_response': names['response'], 'group_control': labels['control'], 'group_treatment': labels['treatment'],
               'period_pre': labels['pre'], 'period_test': labels['test'], 'period_cooldown': labels['cooldown']}
   desc = {'n_ctl': n_ctl, 'n_trt': n_trt, 'n_pre': n_pre, 'n_test': n_test, 'n_cool': n_cool, 'custom_names': custom,
-          'planted': planted, 'index_kind': index_kind, 'date_style': date_style, 'group_labels': [g_[0] for g_ in groups], 'unassigned_geos': len(groups) == 3, 'seed_tag': r.randrange(1 << 30)}
+          'planted': planted, 'longer_third_arm': longer_arm, 'categorical': categorical, 'index_kind': index_kind, 'date_style': date_style, 'group_labels': [g_[0] for g_ in groups], 'unassigned_geos': len(groups) == 3, 'seed_tag': r.randrange(1 << 30)}
   return frame, kwargs, names, labels, desc
 
 
@@ -209,7 +225,7 @@ def run_case(spec):
             len(got), sorted(noisy_set), sorted(map(str, out_set)), len(want), extra, missing))
   # aggregated analysis series
   ad = d.get_analysis_data()
-  dates = sorted(set(want[names['date']]))
+  dates = sorted(set(dt for dt, grp in zip(want[names['date']], want[names['group']]) if grp in (labels['control'], labels['treatment'])))
   xs = {dt: 0.0 for dt in dates}
   ys = {dt: 0.0 for dt in dates}
   for dt, grp, v in zip(want[names['date']], want[names['group']], want[names['response']]):
@@ -252,6 +268,9 @@ def run_case(spec):
           {k: res.get(k) for k in ('noisy_geos', 'outlier_dates', 'corr_test')}))
   if desc['index_kind'] in ('per-geo-counter', 'all-zero', 'geo-labelled'):
     counters['nonunique_index_cases'] += 1
+  counters['categorical_column_cases'] += bool(desc.get('categorical'))
+  counters['longer_third_arm_cases'] += bool(desc.get('longer_third_arm'))
+  counters['longer_third_arm_with_removed_date'] += bool(desc.get('longer_third_arm') and out_set)
   if noisy_set:
     counters['removed_geo_cases'] += 1
   if out_set:
